@@ -21,6 +21,7 @@ from .. import refmodel as R
 from .. import shapes as S
 
 PROPERTY = "C14"
+VIA_HISTORY_EVERY = 7      # every k-th shape case is also run on an object that reached its definition through edits
 EXPLORERS = ['E1']
 RULE = ("E1: shapes of parametric dimension 1..3 x rational/non-rational x degrees x K'(p) knot vectors (plus one "
         "non-dyadic vector) with pairwise different sizes per direction x integer-coded / non-dyadic ('frac') nets and "
